@@ -60,8 +60,8 @@ def exact_records(rnd, tier):
                                 recs.append(dict(kind="tok", dmax=[core.ULP_CAP], dmin=[0], dtv=[0], finite=0, model=mk, recon=recon,
                                                  integ=integ, cfl=cfl, n=n, data=list(d)))
                                 continue
-                            if not all(core.fits(F(float(v))) for x in fields for v in x):
-                                recs.append(tok_of(fields, mk, recon, integ, cfl, n, list(d)))   # exact values too long for TLC's integers
+                            if not all(F(float(v)).denominator <= 1024 and abs(F(float(v)).numerator) <= 2 ** 14 for x in fields for v in x):
+                                recs.append(tok_of(fields, mk, recon, integ, cfl, n, list(d)))   # exact values too long for TLC's 32-bit integers
                                 continue
                             # TLC recomputes the step from each observed field (trace validation) while the numbers stay small
                             small = all(F(float(v)).denominator <= 64 for x in fields[:-1] for v in x) and \
